@@ -14,7 +14,7 @@ import (
 func init() { Registry["C11"] = checkC11 }
 
 func checkC11(p *core.Prog, r *core.Report) {
-	r.Explanation = "Decides structural necessary conditions of ack-required locks: (R1) DoAckLock(lock, true) is called only from the two ack counters, each call on a path that saw a positive result, a still-pending hold, the decrement of its ack count and the count reaching zero, all tested under the ack table's mutex; any other call passes constant false; (R2) on the ack-pending arms of Lock / wakeUpWaitLock (require-ack flag, not yet persisted, persistable) the request is never answered SUCCED; (R3) every mutation of a hold found by LockId in Lock/UnLock follows the test ackCount == 0xff (not pending); (R4) DoAckLock's failure arm undoes the value (when the request carried one), logs the release of a persisted hold, removes the hold, answers RESULT_ERROR after the mutex and wakes waiters, in that order; in every function, the pending test (ackCount) of a hold is never evaluated after RemoveLock reset it; (R5) every failure source reaches the failure arm: AofFile.Flush acknowledges success only after both the record and the value write and negatively on every error return; AofChannel.HandleLock, the ack table's push/unlock/demotion/flush paths call DoAckLock(false); (R6) UpdateDBAckCount computes len(followers)+1 (all) or (len+1)/2+1 (majority). (R7) every publication of a new ack table is followed, before the manager mutex is released, by the recount that gives it the real acknowledgement requirement. NOT decided: run-time ordering between flush, follower acks and reply; lost-ack behaviour."
+	r.Explanation = "Decides structural necessary conditions of ack-required locks: (R1) DoAckLock(lock, true) is called only from the two ack counters, each call on a path that saw a positive result, a still-pending hold, the decrement of its ack count and the count reaching zero, all tested under the ack table's mutex; any other call passes constant false; (R2) on the ack-pending arms of Lock / wakeUpWaitLock (require-ack flag, not yet persisted, persistable) the request is never answered SUCCED; (R3) every mutation of a hold found by LockId in Lock/UnLock follows the test ackCount == 0xff (not pending); (R4) DoAckLock's failure arm undoes the value (when the request carried one), logs the release of a persisted hold, removes the hold, answers RESULT_ERROR after the mutex and wakes waiters, in that order; in every function, the pending test (ackCount) of a hold is never evaluated after RemoveLock reset it; (R5) every failure source reaches the failure arm: AofFile.Flush acknowledges success only after both the record and the value write and negatively on every error return; AofChannel.HandleLock, the ack table's push/unlock/demotion/flush paths call DoAckLock(false); (R6) UpdateDBAckCount computes len(followers)+1 (all) or (len+1)/2+1 (majority). (R7) every publication of a new ack table is followed, before the manager mutex is released, by the recount that gives it the real acknowledgement requirement. (R8) on the ack-pending path of wakeUpWaitLock the queued request's timeout stays armed (it is the only bound on the wait for acknowledgements). NOT decided: run-time ordering between flush, follower acks and reply; lost-ack behaviour."
 	r.Assumptions = []string{"Go type checker and go/ssa are correct for /repo", "the ack table mutex (ackGlocks) serialises the two counters (checked for ackCount stores in C01-R3)"}
 	c11R1(p, r)
 	c11R2(p, r)
@@ -23,6 +23,7 @@ func checkC11(p *core.Prog, r *core.Report) {
 	c11R5(p, r)
 	c11R6(p, r)
 	c11R7(p, r)
+	c11R8(p, r)
 }
 
 func c11R1(p *core.Prog, r *core.Report) {
@@ -623,4 +624,62 @@ func isAckDbs(v ssa.Value) bool {
 	}
 	k := core.FieldKeyOf(fa.X.Type(), fa.Field)
 	return k.Type == "server.ReplicationManager" && k.Field == "ackDbs"
+}
+
+// c11R8: a require-ack lock that is granted from the wait queue stays
+// ack-pending until the followers answer. Unlike the fresh-grant path of Lock,
+// which arms a timeout of its own, the only bound on that wait is the timeout
+// armed when the request was queued. So on the ack-pending path of
+// wakeUpWaitLock the wait timeout must stay armed: no tombstone
+// (timeouted = true) and no RemoveLongTimeOut - otherwise a lost
+// acknowledgement leaves the hold pending for ever (no error, no release,
+// waiters never served).
+func c11R8(p *core.Prog, r *core.Report) {
+	const rule = "C11/R8"
+	r.Rule(rule, "wakeUpWaitLock keeps the queued request's timeout armed on the ack-pending path (no tombstone, no RemoveLongTimeOut)", 1)
+	fn := mustFunc(p, r, "server.(*LockDB).wakeUpWaitLock")
+	if fn == nil {
+		return
+	}
+	wl := fn.Params[2].Name()
+	n := 0
+	ex := core.NewExplorer(p, core.Hooks{
+		Track: func(x *core.X, a core.Atom) bool {
+			s := core.Plain(a.String())
+			return strings.Contains(s, "TimeoutFlag & 4096)") || strings.Contains(s, ".Flag & 4)") || strings.HasSuffix(s, ".isAof == false") || strings.HasSuffix(s, ".isAof == true") || strings.Contains(s, ".aofTime")
+		},
+		Instr: func(x *core.X) {
+			if !x.Top() {
+				return
+			}
+			if st, ok := x.Ins.(*ssa.Store); ok {
+				if k, ok := storeKey(st.Addr); ok && k == fk("server.Lock", "timeouted") && x.Canon(st.Val).S == "true" && strings.HasPrefix(core.Plain(x.Canon(st.Addr).S), "&"+wl+".") {
+					x.Set("disarmed", x.Pos())
+				}
+			}
+			if calleeIs(x.Ins, "LockDB", "RemoveLongTimeOut") && core.Plain(argCanon(x, x.Ins, 1)) == wl {
+				x.Set("disarmed", x.Pos())
+			}
+		},
+		Exit: func(x *core.X, rets []core.Expr) {
+			ack := x.Passed("("+wl+".command.TimeoutFlag & 4096) != 0") && x.Passed(wl+".isAof == false") && x.Passed(wl+".aofTime != 255") && x.Passed("("+wl+".command.Flag & 4) == 0")
+			if !ack {
+				return
+			}
+			n++
+			key := "server.(*LockDB).wakeUpWaitLock: ack-pending grant"
+			if d := x.Get("disarmed"); d != "" {
+				r.Violate(rule, key, d, "the queued request's timeout is cancelled although the lock only becomes ack-pending: nothing bounds the wait for the followers' acknowledgement any more - a lost ack leaves the hold pending for ever", x.St.Trace)
+			} else {
+				r.Hold(rule, key, x.Pos(), "timeout stays armed while the ack is pending")
+			}
+		},
+	})
+	ex.Run(fn, nil)
+	if ex.Imprecise != "" {
+		r.Fail("C11/R8: %s", ex.Imprecise)
+	}
+	if n == 0 {
+		r.Fail("C11/R8: the ack-pending path of wakeUpWaitLock was not found")
+	}
 }
